@@ -7,6 +7,7 @@
 (*    kind  |-> "rule" | "corr",                                           *)
 (*    name  |-> Nat (0 = none), uid |-> Nat (0 = none),                    *)
 (*    refs  |-> Seq([by |-> "name"|"id", key |-> Nat]),   (corr only)      *)
+(*    arefs |-> the same for the rules its alias definitions name,         *)
 (*    generate |-> BOOLEAN]                                (corr only)     *)
 (* A rule set is a sequence of documents indexed by id; a load order is a  *)
 (* permutation of 1..n.                                                    *)
@@ -26,7 +27,8 @@ Lookup(docs, r) ==     \* id of the document a reference points to, 0 if there i
     IN  IF T = {} THEN 0 ELSE CHOOSE d \in T : TRUE
 RefIds(docs, c) == [k \in 1..Len(docs[c].refs) |-> Lookup(docs, docs[c].refs[k])]
 Corrs(docs) == {d \in 1..Len(docs) : docs[d].kind = "corr"}
-MissingRef(docs) == \E c \in Corrs(docs) : \E k \in 1..Len(docs[c].refs) : RefIds(docs, c)[k] = 0
+MissingRef(docs) == \E c \in Corrs(docs) : (\E k \in 1..Len(docs[c].refs) : RefIds(docs, c)[k] = 0)
+                                             \/ (\E j \in 1..Len(docs[c].arefs) : Lookup(docs, docs[c].arefs[j]) = 0)   \* alias definitions
 Referrers(docs, d) == {c \in Corrs(docs) : \E k \in 1..Len(docs[c].refs) : RefIds(docs, c)[k] = d}
 
 \* output switch: off once a non-generating correlation rule refers to the document
